@@ -20,7 +20,7 @@ var orderOfOps = [][]OpCode{
 	{"*", "/", "%"},
 	{"&", "|"},
 	{"+", "-"},
-	{"==", "<=", ">=", ">", "<"},
+	{"==", "=", "<=", ">=", ">", "<"},
 	{"&&", "||"},
 }
 
@@ -54,8 +54,8 @@ var ops = map[OpCode]OpFunc{
 		}
 		return float64(int64(left) >> count)
 	},
-	"&":  func(left, right float64) float64 { return float64(int64(left) & int64(right)) },
-	"|":  func(left, right float64) float64 { return float64(int64(left) | int64(right)) },
+	"&": func(left, right float64) float64 { return float64(int64(left) & int64(right)) },
+	"|": func(left, right float64) float64 { return float64(int64(left) | int64(right)) },
 
 	// Comparisons
 	"<":  func(left, right float64) float64 { return conditionalOp(left < right) },
@@ -63,6 +63,7 @@ var ops = map[OpCode]OpFunc{
 	">":  func(left, right float64) float64 { return conditionalOp(left > right) },
 	">=": func(left, right float64) float64 { return conditionalOp(left >= right) },
 	"==": func(left, right float64) float64 { return conditionalOp(left == right) },
+	"=":  func(left, right float64) float64 { return conditionalOp(left == right) }, // spelling in docs/usage/math.md
 
 	// Comparison
 	"&&": func(left, right float64) float64 { return conditionalOp(truthy(left) && truthy(right)) },
